@@ -32,6 +32,9 @@ def run(ctx):
     _clamp(ctx)
     _ranges(ctx)
     _initial(ctx)
+    # which family a group's cell is created in: the group table (C16 R1 lifting, R4 family = lattice system of the group)
+    from .common import import_obligations
+    import_obligations(ctx, 'C16', 'R5', only_rules={'R1', 'R4'}, floor=10)
 
 
 def _clamp(ctx):
@@ -116,6 +119,13 @@ def _eq(n, v, q):
         return False
 
 
+def _cv(n, v):
+    try:
+        return n.canon_value(v) if v is not None else '(not lifted)'
+    except Exception:      # noqa: BLE001
+        return repr(v)[:60]
+
+
 def _ranges(ctx):
     rep, f = ctx.rep, ctx.facts
     n = Norm()
@@ -153,8 +163,8 @@ def _ranges(ctx):
             else:
                 ok, txt = False, '?'
             rep.check(ok, 'R3', 'range:%s.%s' % (fam, fld), where(b), '%s in %s' % (fld, txt),
-                      '%s.%s is bounded by [%s, %s], the property states %s' % (fam, fld, n.canon_value(lo), n.canon_value(hi), txt))
-        rep.sample('%s: %s' % (fam, [(g[0], n.canon_value(g[1])[:24], n.canon_value(g[2])[:24]) for g in got]))
+                      '%s.%s is bounded by [%s, %s], the property states %s' % (fam, fld, _cv(n, lo), _cv(n, hi), txt))
+        rep.sample('%s: %s' % (fam, [(g[0], _cv(n, g[1])[:24], _cv(n, g[2])[:24]) for g in got]))
     st, err, sb = site_basis_table(f)
     if rep.check(st is not None, 'R3', 'anchor:get_basis', where(sb) if sb else 'site::OccupiedSite', 'lifted', err or '',
                  'anchor-lost' if sb is None else 'undecidable-shape'):
